@@ -28,11 +28,12 @@ pub fn def() -> CheckDef {
         runs_quick: 800_000,
         runs_thorough: 20_000_000,
         rule: "replica agreement between front ends of one mode, each replica under its own seeded schedule and width policy: buffered vs one-shot vs block-level CFB (both directions); OfbCore as encryptor / decryptor / keystream core / Ofb byte stream; CtrCore and BeltCtrCore block-wise vs the byte-level aliases; the six cts types on whole blocks vs cbc::Encryptor/Decryptor resp. the cipher's raw block calls; four ways of constructing every type. distinct = distinct (family, mode, block size, cipher, policies, schedules); non-trivial = >= 1 byte compared",
-        required_probes: &["cfb_three_way", "ofb_four_way", "ctr_core_vs_alias", "belt_core_vs_alias", "cts_one_block", "cts_cs3_swap", "ctor_new", "ctor_slices", "ctor_inner_slice"],
+        required_probes: &["cfb_three_way", "ofb_four_way", "ctr_core_vs_alias", "belt_core_vs_alias", "cts_one_block", "cts_cs3_swap", "ctor_new", "ctor_slices", "ctor_inner_slice", "core_one_shot_vs_alias", "ctor_then_seek"],
         r#gen,
         exec,
         components: "real code on every replica (all nine crates + cipher's front ends); stub: block cipher in most runs (raw block calls of the stub stand for 'raw block encryption'), real ciphers in the rest; no reference model",
         assumptions: &["toy permutation is a bijection (self-tested)", "sampling, not proof"],
+        nondet_is_violation: false,
     }
 }
 
@@ -74,6 +75,7 @@ fn r#gen(rng: &mut Rng, thorough: bool) -> Scn {
             let bs = s.bs as u64;
             s.set_num("blocks", rng.nblocks(if bs > 200 { 8 } else { 20 }, 8) as u128);
             s.set_num("startblk", if rng.chance(1, 3) { rng.below(1 << 20) } else { 0 } as u128);
+            s.set_num("tailbytes", if rng.chance(1, 2) { rng.nbytes(5 * bs, bs) } else { 0 } as u128);
             for _ in 0..1 + rng.usize(maxp) {
                 s.ops.push(Op::new("apply").who(0).n(rng.nbytes(4 * bs, bs)).via(rng.below(N_APPLY_FORMS as u64) as u8));
                 s.ops.push(Op::new("ks").who(1).n(rng.nblocks(8, 8)).via(rng.below(N_KS_VIA as u64) as u8).p(rng.next() as u128));
@@ -288,6 +290,19 @@ fn exec(scn: &Scn, ctx: &mut Ctx) -> Verdict {
             if w.block_pos() != c.get_pos() {
                 violation!("core_vs_alias_pos", "{}: block positions differ: alias {:?}, core {:?}", scn.mode, w.block_pos(), c.get_pos());
             }
+            // the core's consuming one-shot vs the alias on the following bytes (far from the limit)
+            let tail = (scn.num("tailbytes") as usize).min(1 << 12);
+            if tail > 0 {
+                let m2 = scn.bytes(nb * bs + 5, tail);
+                let (mut o1, mut o2) = (scn.dirt(1, tail), scn.dirt(2, tail));
+                if w.apply(0, &m2, &mut o1).is_err() || c.partial(scn.num("tailbytes") % 2 == 1, &m2, &mut o2).is_err() {
+                    violation!("apply_err", "one-shot on {} bytes failed", tail);
+                }
+                ctx.probe("core_one_shot_vs_alias");
+                if o1 != o2 {
+                    violation!("core_vs_alias", "{}: the core's one-shot apply_keystream_partial and the byte-level cipher differ at byte {} of {} (after {} blocks)", scn.mode, first_diff(&o1, &o2), tail, nb);
+                }
+            }
             Verdict::Ok
         }
         3 => {
@@ -418,6 +433,20 @@ fn exec(scn: &Scn, ctx: &mut Ctx) -> Verdict {
                     let (mut oa, mut ob) = (vec![0; len], vec![0; len]);
                     if a.apply(0, &msg, &mut oa).is_err() || b.apply(0, &msg, &mut ob).is_err() {
                         violation!("apply_err", "apply failed");
+                    }
+                    if a.seekable() {
+                        // positions and seeking must agree too, not only the first bytes
+                        let p = (scn.num("len") * 7 + 3) % (1 << 20);
+                        if a.pos(2) != b.pos(2) || a.seek(2, p).is_err() != b.seek(2, p).is_err() || a.pos(1) != b.pos(1) {
+                            violation!("ctor_position", "{}: position / seek behaviour differs between constructors 0 and {}", scn.mode, ctor);
+                        }
+                        let (mut o2a, mut o2b) = (vec![0; len], vec![0; len]);
+                        if a.apply(0, &msg, &mut o2a).is_err() || b.apply(0, &msg, &mut o2b).is_err() {
+                            violation!("apply_err", "apply failed");
+                        }
+                        oa.extend(o2a);
+                        ob.extend(o2b);
+                        ctx.probe("ctor_then_seek");
                     }
                     (oa, ob)
                 }
